@@ -251,9 +251,12 @@ def instance_lemmas(k, alg: Alg, args, attrs):
 
 
 def rule_algebra(rep, program: Program):
-    r1 = rep.rule("R1", "left product, right product, dense array and transpose of each class denote one operator", floor=90)
-    r4 = rep.rule("R4", "inverse, square root and scalar multiple satisfy M^-1 M = I, S S^T = M, (c M) = c * M", floor=63)
+    r1 = rep.rule("R1", "left product, right product, dense array and transpose of each class denote one operator", floor=88)
+    r4 = rep.rule("R4", "inverse, square root and scalar multiple satisfy M^-1 M = I, S S^T = M, (c M) = c * M", floor=53)
     r5 = rep.rule("R5", "forwarded capacitance caches equal their definition on the new arguments; lower/upper flags follow transposition", floor=20)
+    # floors count decided (class, member[, LU flag]) obligations, not return paths: merging two
+    # `return`s into a conditional expression must not look like a vanished anchor
+    r1.units, r4.units = set(), set()
     skipped = []
     for cname in CLASSES:
         k = program.cls(cname)
@@ -297,6 +300,7 @@ def rule_algebra(rep, program: Program):
                     continue
                 for asm, v in rets:
                     label = {"class": cname, "member": f.qualname, "assume": {a: b for a, b in asm.items()}}
+                    (r1 if member in ("_left_matrix_multiply", "_right_matrix_multiply", "_construct_array", "_construct_transpose") else r4).units.add((cname, member, lu_flag))
                     try:
                         ev.assume = asm
                         if member == "_left_matrix_multiply":
